@@ -125,6 +125,9 @@ func CheckC10(e *Env) int {
 	}
 	// a base set shared by wrappers that each add a different source for one interface
 	progs = append(progs, sharedBaseFamily()...)
+	// which package declares a set must not matter even when two packages share their package
+	// clause and the names of their members
+	progs = append(progs, twinPackagesFamily()...)
 	results := RunPool(e, progs, PoolOpts{Execute: true, Name: "c10"})
 	byKey := map[key]*ProgResult{}
 	for _, pr := range results {
